@@ -23,6 +23,12 @@ CC = {
     'clang-O0-gnu89': ('clang', ['-O0', '-std=gnu89']),
     'gcc-O1-nobuiltin': ('gcc', ['-O1', '-D__has_builtin(x)=0']),
     'clang-O1-nobuiltin': ('clang', ['-O1', '-D__has_builtin(x)=0']),
+    'gcc-O1-be': ('gcc', ['-O1', '-DWASM_ENDIAN=1']),
+    'clang-O2-be': ('clang', ['-O2', '-DWASM_ENDIAN=1']),
+    'gcc-O0-be': ('gcc', ['-O0', '-DWASM_ENDIAN=1']),
+    'clang-O0-be': ('clang', ['-O0', '-DWASM_ENDIAN=1']),
+    'gcc-O1-le': ('gcc', ['-O1', '-DWASM_ENDIAN=0']),
+    'clang-O2-le': ('clang', ['-O2', '-DWASM_ENDIAN=0']),
     'gcc-O1-san': ('gcc', ['-O1', '-g', '-fsanitize=undefined,address,float-cast-overflow', '-fno-sanitize-recover=all']),
     'clang-O1-san': ('clang', ['-O1', '-g', '-fsanitize=undefined,address', '-fno-sanitize-recover=all']),
     'gcc-O2-san': ('gcc', ['-O2', '-g', '-fsanitize=undefined,address,float-cast-overflow', '-fno-sanitize-recover=all']),
@@ -191,9 +197,11 @@ def script_from_json(js):
     return out
 
 
-def run_case(m, script, ccname, w2c2_options=(), wasm_bytes=None, knobs=None, ninst=2, w2c2_variant='plain'):
+def run_case(m, script, ccname, w2c2_options=(), wasm_bytes=None, knobs=None, ninst=2, w2c2_variant='plain', byteorder=None):
     """returns (status, info): status in ok | mismatch | translate | compile | crash | truncated-empty"""
-    model = e2e.ModelRun(m, script, ninst=ninst)
+    if byteorder is None:
+        byteorder = 'big' if ccname.endswith('-be') else 'little'
+    model = e2e.ModelRun(m, script, ninst=ninst, byteorder=byteorder)
     cc, cflags = CC[ccname]
     b = e2e.Built(m, wasm_bytes=wasm_bytes, cc=cc, cflags=cflags, w2c2_options=w2c2_options, knobs=knobs, ninst=ninst,
                   w2c2_variant=w2c2_variant)
